@@ -1705,18 +1705,10 @@ class Stream(AbstractStream):
         flow (kg/hr): Water  2
 
         """
-        if isinstance(other.imol, MaterialIndexer):
-            phases = other.phases
-            if len(phases) == 1:
-                phase, = phases
-                self.phase = phase
-                self.mol.copy_like(other.imol[phase])
-                return
-            else:
-                self.phases = other.phases
-                imol = other._imol
-        else:
-            imol = other._imol
+        imol = other._imol
+        if isinstance(imol, MaterialIndexer) and len(imol._phases) > 1:
+            if self.phase not in imol._phases: self._imol.empty() # Flows are replaced; nothing to carry over
+            self.phases = imol._phases
         self._imol.copy_like(imol)
         self._thermal_condition.copy_like(other._thermal_condition)
     
